@@ -365,6 +365,9 @@ type scenario struct {
 	ctxShort bool // the caller's deadline is before RequestTimeout
 }
 
+// withMetrics: the scenarios run while it is set use an Exchange built with p2p.WithMetrics()
+var withMetrics bool
+
 type reqSeen struct {
 	isHash bool
 	hash   string
@@ -446,11 +449,16 @@ func run(t *testing.T, sc *scenario) (out outcome, seen []reqSeen) {
 		if err != nil {
 			t.Fatal(err)
 		}
-		ex, err := p2p.NewExchange[*vhdr.Header](dlHost{client}, trusted, gater,
+		exOpts := []p2p.Option[p2p.ClientParameters]{
 			p2p.WithNetworkID[p2p.ClientParameters](networkID),
 			p2p.WithChainID(sc.want),
 			p2p.WithRequestTimeout[p2p.ClientParameters](reqTimeout),
-		)
+		}
+		if withMetrics {
+			// the one extra dimension of the second follow-up: the Exchange's metrics are enabled
+			exOpts = append(exOpts, p2p.WithMetrics[p2p.ClientParameters]())
+		}
+		ex, err := p2p.NewExchange[*vhdr.Header](dlHost{client}, trusted, gater, exOpts...)
 		if err != nil {
 			t.Fatal(err)
 		}
@@ -993,6 +1001,10 @@ func TestC13(t *testing.T) {
 			}
 		}
 		class := fmt.Sprintf("%s/%q/%s", tg.name, want, strings.Join(ks, ","))
+		if withMetrics {
+			class += "/metrics"
+		}
+		wr.Count("exchange metrics", fmt.Sprint(withMetrics))
 		obs := u.obsTerm(o)
 		nontriv := o.h != nil && o.err == nil
 		wr.Add(u.caseTerm(sc, o, seen), map[string]any{"target": tg.name, "want": want, "events": ks, "obs": obs, "tag": tag}, class, nontriv)
@@ -1048,6 +1060,21 @@ func TestC13(t *testing.T) {
 			}
 		}
 	}
+	// a slice of the above with the Exchange's metrics enabled (p2p.WithMetrics): every answer kind alone,
+	// and two peers with the caller's cancel / deadline / Exchange.Stop at every position
+	withMetrics = true
+	for _, tg := range targets[:2] {
+		for _, k := range w.kinds {
+			one(tg, "chainA", mk(k), id(1), evArrive, -1, "metrics")
+		}
+		for _, ck := range []evKind{evCtxDeadline, evCtxCancel, evStop} {
+			for cut := 0; cut <= 2; cut++ {
+				one(tg, "chainA", mk("notfound", "T"), id(2), ck, cut, "metrics")
+			}
+		}
+	}
+	one(targets[0], "chainA", nil, nil, evArrive, -1, "metrics")
+	withMetrics = false
 	// every trusted peer stays silent until the client's own stream deadline (the
 	// request timeout) ends the read, while the caller's context is still alive;
 	// and silent peers mixed with peers that answer with an error
